@@ -2,6 +2,7 @@ SPECIFICATION Spec
 CONSTANTS Desc = {1, 2}
   OnCancel = "kill-tree"
   ReapedGroupKill = FALSE
+  GroupWhenTranslated = TRUE
   WaitDelay = TRUE
 INVARIANTS AfterReturnNoSurvivor
 CHECK_DEADLOCK FALSE
